@@ -84,7 +84,12 @@ pub fn run_one(ctx: &mut RunCtx, sc: &Scenario) -> Outcome {
         ctx.root = ctx.base.clone();
         let _ = std::fs::create_dir_all(&ctx.base);
     }
-    let before = if ctx.manifest { Some(tree::manifest(&ctx.base)) } else { None };
+    // (when the owner changes the tree during the run, only the armed monitor can tell the server's
+    // doing from the owner's: no before / after comparison)
+    let before = if ctx.manifest && sc.owner_ops.is_empty() { Some(tree::manifest(&ctx.base)) } else { None };
+    if !sc.owner_ops.is_empty() {
+        ctx.last_tree = None;
+    }
 
     let mut fds = [0i32; 2];
     if unsafe { libc::pipe(fds.as_mut_ptr()) } != 0 {
